@@ -66,6 +66,9 @@ def objs_map():
             walk(minidom.parseString(json.loads(l)["xml"].encode("utf8")).documentElement)
         except Exception:
             continue
+    out["authentication|urn:xmpp:sasl:2"] = out.get("authentication|urn:xmpp:sasl:2", []) + [
+        "<authentication xmlns='urn:xmpp:sasl:2'><mechanism>SCRAM-SHA-256</mechanism><inline><sm xmlns='urn:xmpp:sm:3'/></inline></authentication>",
+        "<authentication xmlns='urn:xmpp:sasl:2'><mechanism>PLAIN</mechanism><inline><bind xmlns='urn:xmpp:bind:0'><inline><feature var='urn:xmpp:sm:3'/></inline></bind><sm xmlns='urn:xmpp:sm:3'/><fast xmlns='urn:xmpp:fast:0'><mechanism>HT-SHA-256-NONE</mechanism></fast></inline></authentication>"]
     out["unknown|urn:example:unknown"] = ["<unknown xmlns='urn:example:unknown' a='1'><child>t&amp;&lt;x</child></unknown>", "<other xmlns='urn:example:other'/>"]
     return {k: v for k, v in out.items()}
 
@@ -120,7 +123,7 @@ def fields_layer(V, tier):
                 st["combinations"] = st.get("combinations", 0) + r["tried"]
                 st.setdefault("classes_with_combinations", set()).add(r["cls"])
                 for f in r["fails"]:
-                    kind = "output-not-wellformed" if "not well-formed" in f["problem"] else "own-output-refused" if "refused" in f["problem"] else "serializes-differently" if "serializes differently" in f["problem"] else "value-lost"
+                    kind = "output-not-wellformed" if "not well-formed" in f["problem"] else "own-output-refused" if "refused" in f["problem"] else "serializes-differently" if "serializes differently" in f["problem"] else "unset-field-changed" if "was not set changed" in f["problem"] else "value-lost"
                     V.violation("setter-built combination %s%s %s" % (r["cls"], "." + f["lost"] if f["lost"] else "", kind),
                                 "%s: several fields set at once (each to a value that survives when set alone): %s" % (r["cls"], f["problem"][:200]),
                                 {"class": r["cls"], "state": f["state"], "fields": f["fields"], "values": f["values"], "problem": f["problem"], "xml": f["xml"]})
@@ -136,7 +139,7 @@ def fields_layer(V, tier):
             st["live_states"] += 1
             st["values"] += r["tried"]
             for f in r["fails"]:
-                kind = "output-not-wellformed" if "not well-formed" in f["got"] else "own-output-refused" if "refused" in f["got"] else "value-lost"
+                kind = "output-not-wellformed" if "not well-formed" in f["got"] else "own-output-refused" if "refused" in f["got"] else "unset-field-changed" if "was not set changed" in f["got"] else "value-lost"
                 V.violation("setter-built %s %s" % (k, kind), "%s: a value of the field's type set with the setter is not what the getter reports after serialize -> parse (state %s)" % (k, r["state"]),
                             {"class": r["cls"], "setter": r["field"], "state": r["state"], "value_set": f["value"], "value_after_roundtrip": f["got"], "xml": f["xml"]})
     st["dormant"] = sorted(st["fields"] - st["live_fields"])
